@@ -611,3 +611,48 @@ func ruleResetNeverSuccess(c *Ctx, rule string) {
 	}
 	c.floor(rule, "success returns of errorIfDone", n, 1)
 }
+
+// ruleStreamPayloadProvenance (C02.3, sender side): the body a stream SendMsg puts on the wire is an owned copy
+// (Materialize) of Marshal(m) for the caller's message m — not an alias of a codec buffer that is recycled
+// while the envelope still waits in a writer queue, and with no altering step.
+func ruleStreamPayloadProvenance(c *Ctx, rule string) {
+	p := c.p
+	e := p.Origins()
+	for _, fk := range []string{"client.clientStream.SendMsg", "server.serverStream.SendMsg"} {
+		f := p.MustFn(fk)
+		env := p.envelopeIn(fk)
+		n := 0
+		for _, t := range env.Fields["Body"].Origins {
+			al, ok := e.allocs[t.Name].(*ssa.Alloc)
+			if !ok || t.Op != "alloc" {
+				c.check(rule, fk+":body-literal", false, "Body is not a local literal: "+t.String(), p.ipos(env.Alloc))
+				continue
+			}
+			for _, s := range p.allocFieldStores(al, "Data") {
+				n++
+				d := e.Of(s.Val)
+				ok1, why := d.AllMatch("call(*Materialize,call(*Marshal#0,_,_))")
+				okM := false
+				if cl, isC := s.Val.(*ssa.Call); isC && ok1 {
+					if ex, isE := cl.Call.Args[0].(*ssa.Extract); isE {
+						if mc, isMC := ex.Tuple.(*ssa.Call); isMC {
+							okM = p.sameValue(mc.Call.Args[len(mc.Call.Args)-1], paramNamed(f, "m"))
+						}
+					}
+				}
+				c.check(rule, fk+":body-data", ok1 && okM, "Body.Data ← "+why+" (required: Materialize(Marshal(m)) of the caller's message — an owned copy)", p.ipos(s))
+			}
+		}
+		c.floor(rule, "body data stores in "+fk, n, 1)
+		for _, ci := range p.callsTo(f, "BufferSlice).Free", true) {
+			c.check(rule, fk+":no-buffer-release", false, "the marshalled buffers are released while the envelope may still be queued for the writer", p.ipos(ci.(ssa.Instruction)))
+		}
+		for _, ci := range p.callsTo(f, "mem.Buffer).Free", true) {
+			c.check(rule, fk+":no-buffer-release", false, "a marshal buffer is released while the envelope may still be queued for the writer", p.ipos(ci.(ssa.Instruction)))
+		}
+		// the envelope written is the one built
+		ws := p.transportOps(f, "Write", false)
+		okW := len(ws) == 1 && p.sameValue(ws[0].Call.Args[1], env.Alloc)
+		c.check(rule, fk+":writes-the-envelope-built", okW, "the envelope handed to the transport is the one carrying that body", p.ipos(env.Alloc))
+	}
+}
